@@ -65,7 +65,8 @@ end Genshi.Subst
   white space, `/`, `>`, `=`; anything the serializers never write (comments, processing
   instructions, CDATA, doctype, single-quoted or unquoted attribute values, a tag that is not
   closed) makes the reader give up (`none`).  Under html an element of the generated void
-  list is complete without an end tag. -/
+  list is complete without an end tag, and the content of a raw-text element (the generated
+  `_NOESCAPE_ELEMS`: `script`, `style`) is raw text: it runs to the next `</` and is not decoded. -/
 namespace Genshi.Subst
 open Genshi.Escape Genshi.Str
 
@@ -79,6 +80,8 @@ inductive Mode where
   | attrVal     -- inside the double quotes
   | inTag       -- after the closing quote of an attribute value
   | slash       -- after `/` inside a start tag
+  | raw         -- inside a raw-text element (html `script` / `style`): everything is content …
+  | rawLt       -- … up to the next `</`; here the last character read (and kept in `buf`) is `<`
   deriving Repr, DecidableEq, Inhabited
 
 structure RS where
@@ -97,6 +100,13 @@ def isNameChar (c : Char) : Bool :=
 /-- pending character data becomes one text event, references decoded; nothing if empty -/
 def flushText (raw : List Char) : List Ev :=
   if raw.isEmpty then [] else [.text (unescape raw) false]
+
+/-- the content of a raw-text element becomes one text event, NOT decoded; nothing if empty -/
+def flushRaw (raw : List Char) : List Ev :=
+  if raw.isEmpty then [] else [.text raw false]
+
+/-- is `t` a raw-text element of the method (`HTMLSerializer._NOESCAPE_ELEMS`; none under xml / xhtml)? -/
+def isRawElem (m : Method) (t : Name) : Bool := (noescapeElems m).contains t
 
 /-- the events of a completed start tag -/
 def startEvents (m : Method) (t : Name) (attrs : List (Name × List Char)) : List Ev :=
@@ -122,7 +132,8 @@ def step (m : Method) (st : RS) (c : Char) : Option RS :=
       else if c = ' ' then some { st with mode := .attrName, tag := st.buf, attrs := [], aname := [], buf := [] }
       else if c = '/' then some { st with mode := .slash, tag := st.buf, attrs := [], buf := [] }
       else if c = '>' then
-        some { st with mode := .text, buf := [], out := st.out ++ startEvents m st.buf [] }
+        some { st with mode := (if isRawElem m st.buf then .raw else .text), buf := [],
+                       out := st.out ++ startEvents m st.buf [] }
       else none
   | .attrName =>
       if isNameChar c then some { st with aname := st.aname ++ [c] }
@@ -139,8 +150,17 @@ def step (m : Method) (st : RS) (c : Char) : Option RS :=
       if c = ' ' then some { st with mode := .attrName, aname := [] }
       else if c = '/' then some { st with mode := .slash }
       else if c = '>' then
-        some { st with mode := .text, buf := [], out := st.out ++ startEvents m st.tag st.attrs }
+        some { st with mode := (if isRawElem m st.tag then .raw else .text), buf := [],
+                       out := st.out ++ startEvents m st.tag st.attrs }
       else none
+  | .raw =>
+      if c = '<' then some { st with mode := .rawLt, buf := st.buf ++ [c] }
+      else some { st with buf := st.buf ++ [c] }
+  | .rawLt =>
+      if c = '/' then
+        some { st with mode := .closeName, buf := [], out := st.out ++ flushRaw st.buf.dropLast }
+      else if c = '<' then some { st with buf := st.buf ++ [c] }
+      else some { st with mode := .raw, buf := st.buf ++ [c] }
   | .slash =>
       if c = '>' then
         some { st with mode := .text, buf := [], out := st.out ++ [.start st.tag st.attrs, .end_ st.tag] }
